@@ -184,6 +184,15 @@ func c08RandE(r *rand.Rand) ref.E {
 }
 
 func c08Exponent(r *rand.Rand, i int) uint64 {
+	if i%4 == 3 {
+		// 2^k - 1, 2^k, 2^k + 1 over the whole 64-bit range (float / shift precision boundaries)
+		k := uint(21 + r.Intn(44))
+		v := uint64(1) << (k % 64)
+		if k == 64 {
+			return ^uint64(0) - uint64(r.Intn(2))
+		}
+		return v + uint64(r.Intn(3)) - 1
+	}
 	switch i % 6 {
 	case 0:
 		return uint64(i / 6 % 40) // small incl. 0,1,2
